@@ -322,7 +322,10 @@ func OrderSystems() []SysGen {
 // extremes are numbers at the edges of the fixed-width integer types a
 // comparison might pass through.
 var extremes = []string{
+	"255", "256", "257", "32767", "32768", "65535", "65536",
 	"2147483646", "2147483647", "2147483648", "4294967295", "4294967296",
+	// Between 2^31 and 2^63 with text order unlike numeric order.
+	"3000000000", "10000000000", "20000000000",
 	"9223372036854775806", "9223372036854775807", "9223372036854775808",
 	"18446744073709551614", "18446744073709551615", "18446744073709551616",
 	"99999999999999999999",
@@ -387,7 +390,40 @@ func Wild(g func(*rand.Rand) string) func(*rand.Rand) string {
 			return s + "." + Pick(r, "x", "*")
 		}
 		x := runs[1+r.Intn(len(runs)-1)]
+		if r.Intn(5) == 0 {
+			x = runs[0] // a wildcard in first position, with components behind it
+		}
 		return s[:x[0]] + Pick(r, "x", "*", "X") + s[x[1]:]
+	}
+}
+
+// SmallEdges wraps a generator: in one string of thirty a digit run is replaced
+// by a number at the edge of a small integer type (127/128, 255/256/257,
+// 65535/65536), where table look-ups and narrow conversions go wrong.
+func SmallEdges(g func(*rand.Rand) string) func(*rand.Rand) string {
+	return func(r *rand.Rand) string {
+		s := g(r)
+		if r.Intn(30) != 0 {
+			return s
+		}
+		var runs [][2]int
+		for i := 0; i < len(s); {
+			if s[i] < '0' || s[i] > '9' {
+				i++
+				continue
+			}
+			j := i
+			for j < len(s) && s[j] >= '0' && s[j] <= '9' {
+				j++
+			}
+			runs = append(runs, [2]int{i, j})
+			i = j
+		}
+		if len(runs) == 0 {
+			return s
+		}
+		x := runs[r.Intn(len(runs))]
+		return s[:x[0]] + Pick(r, "127", "128", "255", "256", "256", "257", "65535", "65536") + s[x[1]:]
 	}
 }
 
